@@ -265,6 +265,8 @@ def str_method(it, recv, name, args, kw):
         fname = 'py_%s' % name + ''.join('_%s' % a.encode().hex()
                                          for a in args)
         return mk_str(ufun(fname, _S, _S)(e))
+    if name == 'encode':
+        return codec_encode(it, recv, args, kw)
     if name == 'replace' and len(args) == 2 and all(
             isinstance(a, str) for a in args):
         fname = 'py_replace_%s_%s' % (args[0].encode().hex(),
@@ -363,7 +365,96 @@ def count_model(it, e, sub):
     return 2
 
 
+# --------------------------------------------------------------------------
+# codecs (A-CODEC): encode / decode are uninterpreted, may raise
+# UnicodeEncodeError / UnicodeDecodeError / LookupError, and
+# decode(encode(t, e, p), e, q) == t.
+
+_B = z3.DeclareSort('PyBytes')
+
+
+def _bytes_term(it, b):
+    """A z3 constant standing for the identity of a bytes value."""
+    from .core import SBytes as _SB
+    if isinstance(b, (bytes, bytearray)):
+        return z3.Const('bytes_%s' % bytes(b).hex()[:64], _B)
+    t = getattr(b, 'tag', None)
+    if t and t[0] == 'base':
+        return z3.Const('bytes_of_' + t[1], _B)
+    if t and t[0] == 'enc':
+        return ufun('py_encode', _S, _S, _S, _B)(*t[1])
+    raise Unsupported('codec operation on a derived bytes value')
+
+
+def _codec_args(args, kw, names, defaults):
+    vals = list(args) + [None] * (len(names) - len(args))
+    out = []
+    for i, n in enumerate(names):
+        v = kw.get(n, vals[i])
+        if v is None:
+            v = defaults[i]
+        if not isinstance(v, (str, SStr)):
+            raise Unsupported('codec argument %r' % (v,))
+        out.append(zstr(v))
+    return out
+
+
+def _codec_known(enc):
+    e = z3.simplify(enc)
+    if z3.is_string_value(e):
+        import codecs
+        try:
+            codecs.lookup(e.as_string())
+            return True
+        except LookupError:
+            return False
+    return mk_bool(ufun('py_codec_known', _S, z3.BoolSort())(enc))
+
+
+def codec_decode(it, recv, args, kw):
+    from .core import SBytes as _SB
+    enc, err = _codec_args(args, kw, ('encoding', 'errors'),
+                           ('utf-8', 'strict'))
+    t = getattr(recv, 'tag', None)
+    if t and t[0] == 'enc':
+        s_e, e_e, _p = t[1]
+        if it.truth(mk_bool(e_e == enc)):
+            # A-CODEC round trip
+            return mk_str(s_e)
+    b = _bytes_term(it, recv)
+    if not it.truth(_codec_known(enc)):
+        it.throw(LookupError, 'unknown encoding')
+    ok = ufun('py_decode_ok', _B, _S, _S, z3.BoolSort())(b, enc, err)
+    if not it.truth(mk_bool(ok)):
+        it.throw(UnicodeDecodeError, 'codec', b'', 0, 1, 'invalid')
+    it.trusted.add('A-CODEC')
+    return mk_str(ufun('py_decode', _B, _S, _S, _S)(b, enc, err))
+
+
+def codec_encode(it, recv, args, kw):
+    from .core import SBytes as _SB
+    enc, err = _codec_args(args, kw, ('encoding', 'errors'),
+                           ('utf-8', 'strict'))
+    se = zstr(recv)
+    if not it.truth(_codec_known(enc)):
+        it.throw(LookupError, 'unknown encoding')
+    ok = ufun('py_encode_ok', _S, _S, _S, z3.BoolSort())(se, enc, err)
+    if not it.truth(mk_bool(ok)):
+        it.throw(UnicodeEncodeError, 'codec', '', 0, 1, 'invalid')
+    arr = ufun('py_encode_bytes', _S, _S, _S,
+               z3.ArraySort(z3.IntSort(), z3.IntSort()))(se, enc, err)
+    ln = ufun('py_encode_len', _S, _S, _S, z3.IntSort())(se, enc, err)
+    it.path.fact(ln >= 0)
+    it.trusted.add('A-CODEC')
+
+    def at(i):
+        return arr[i if not isinstance(i, int) else z3.IntVal(i)]
+    return _SB(at, ln, tag=('enc', (se, enc, err)))
+
+
 def bytes_method(it, recv, name, args, kw):
+    if name == 'decode':
+        return codec_decode(it, recv, args, kw)
     hook = getattr(it, 'bytes_method_hook', None)
     if hook is not None:
         r = hook(it, recv, name, args, kw)
